@@ -231,24 +231,41 @@ func c28Partition(c *engine.Ctx, p *engine.Prog) {
 // c28PreCommitOnly: the site runs only when no block has been committed yet
 // (`header == nil || header.GetHeight() < 1` holds).
 func c28PreCommitOnly(f *engine.Fn, s *engine.Site) bool {
-	for _, g := range f.Graph().Gates(s) {
-		if !g.OnTrue {
+	isNilHdr := func(cx *sfCtx, e ast.Expr, op token.Token) bool {
+		_, b, o, ok := sfCmp(e)
+		return ok && o == op && isNil(b)
+	}
+	lowHeight := func(cx *sfCtx, e ast.Expr, op token.Token) bool {
+		a, b, o, ok := sfCmp(e)
+		if !ok || o != op {
+			return false
+		}
+		if k, isK := sfConstInt(cx.fn.Info(), b); !isK || k != 1 {
+			return false
+		}
+		return sfOperandIs(cx, a, func(c2 *sfCtx, x ast.Expr) bool {
+			cl, isC := ast.Unparen(x).(*ast.CallExpr)
+			return isC && strings.HasSuffix(sfCallee(c2.fn.Info(), cl), ".GetHeight")
+		})
+	}
+	for _, ft := range sfFactsAt(sfRoot(f), s) {
+		b, isB := ast.Unparen(ft.e).(*ast.BinaryExpr)
+		if !isB {
 			continue
 		}
-		djs := engine.Conjuncts(g.Cond, token.LOR)
-		nilT, lowT := false, false
-		for _, d := range djs {
-			if _, b, op, ok := sfCmp(d); ok && op == token.EQL && isNil(b) {
-				nilT = true
-			}
-			if a, b, op, ok := sfCmp(d); ok && op == token.LSS && sfIsIntLit(b, "1") {
-				if cl, isC := ast.Unparen(a).(*ast.CallExpr); isC && strings.HasSuffix(sfCallee(f.Info(), cl), ".GetHeight") {
-					lowT = true
-				}
+		// header == nil || height < 1   holds
+		if ft.val && b.Op == token.LOR {
+			dj := engine.Conjuncts(b, token.LOR)
+			if len(dj) == 2 && ((isNilHdr(ft.ctx, dj[0], token.EQL) && lowHeight(ft.ctx, dj[1], token.LSS)) || (isNilHdr(ft.ctx, dj[1], token.EQL) && lowHeight(ft.ctx, dj[0], token.LSS))) {
+				return true
 			}
 		}
-		if nilT && lowT && len(djs) == 2 {
-			return true
+		// header != nil && height >= 1  does not hold
+		if !ft.val && b.Op == token.LAND {
+			cj := engine.Conjuncts(b, token.LAND)
+			if len(cj) == 2 && ((isNilHdr(ft.ctx, cj[0], token.NEQ) && lowHeight(ft.ctx, cj[1], token.GEQ)) || (isNilHdr(ft.ctx, cj[1], token.NEQ) && lowHeight(ft.ctx, cj[0], token.GEQ))) {
+				return true
+			}
 		}
 	}
 	return false
@@ -260,24 +277,36 @@ func c28SimNoWrite(c *engine.Ctx, p *engine.Prog) {
 		return
 	}
 	n := 0
-	for _, body := range append([]*engine.Fn{f}, f.AllLits()...) {
-		info := body.Info()
-		modeIs := func(name string, op token.Token) func(ast.Expr) bool {
-			return func(e ast.Expr) bool {
-				a, b, o, ok := sfCmp(e)
-				if !ok || o != op {
-					return false
-				}
-				ida, _ := ast.Unparen(a).(*ast.Ident)
-				k, isK := engine.ObjOf(info, b).(*types.Const)
-				return ida != nil && ida.Name == "mode" && isK && k.Name() == name
+	// "mode" is whatever originates from a Mode() call (local of runTx, captured by its closures, or passed to helpers)
+	isMode := func(cx *sfCtx, e ast.Expr) bool {
+		return sfOperandIs(cx, e, func(c2 *sfCtx, x ast.Expr) bool {
+			cl, ok := ast.Unparen(x).(*ast.CallExpr)
+			return ok && strings.HasSuffix(sfCallee(c2.fn.Info(), cl), ".Mode")
+		})
+	}
+	modeIs := func(name string, op token.Token) func(*sfCtx, ast.Expr) bool {
+		return func(cx *sfCtx, e ast.Expr) bool {
+			a, b, o, ok := sfCmp(e)
+			if !ok {
+				return false
 			}
+			if k, isK := engine.ObjOf(cx.fn.Info(), a).(*types.Const); isK && k.Name() == name {
+				a, b = b, a
+			}
+			k, isK := engine.ObjOf(cx.fn.Info(), b).(*types.Const)
+			return o == op && isK && k.Name() == name && isMode(cx, a)
 		}
-		for _, s := range body.CallsTo("tm2/pkg/store/types.(MultiStore).MultiWrite", "tm2/pkg/store/types.(Checkpointable).WriteCheckpoint", "tm2/pkg/store/types.(Store).Write") {
-			ok := sfHolds(body, s, true, modeIs("RunTxModeDeliver", token.EQL)) || sfHolds(body, s, true, modeIs("RunTxModeCheck", token.EQL)) ||
-				sfHolds(body, s, false, modeIs("RunTxModeDeliver", token.NEQ))
+	}
+	for _, body := range append([]*engine.Fn{f}, f.AllLits()...) {
+		stop := func(nm string) bool { return nm == c28BA+"runMsgs" || nm == c28BA+"cacheTxContext" }
+		for _, d := range sfDeepCalls(body, 2, stop, func(cx *sfCtx, s *engine.Site) bool {
+			return engine.MatchName(s.CalleeName(), "tm2/pkg/store/types.(MultiStore).MultiWrite", "tm2/pkg/store/types.(Checkpointable).WriteCheckpoint", "tm2/pkg/store/types.(Store).Write")
+		}) {
+			facts := d.facts()
+			ok := sfKnown(facts, true, modeIs("RunTxModeDeliver", token.EQL)) || sfKnown(facts, true, modeIs("RunTxModeCheck", token.EQL)) ||
+				sfKnown(facts, false, modeIs("RunTxModeDeliver", token.NEQ)) || sfKnown(facts, false, modeIs("RunTxModeCheck", token.NEQ))
 			n++
-			c.Check("sim-no-write", body.Name+" "+s.CalleeName(), s.Pos(), ok, "a store flush in runTx must be unreachable when mode == RunTxModeSimulate")
+			c.Check("sim-no-write", body.Name+" "+d.callee(), d.where(), ok, "a store flush in runTx must be unreachable when mode == RunTxModeSimulate")
 		}
 	}
 	c.Floor("sim-no-write", n, 4)
@@ -309,11 +338,15 @@ func c28QueryView(c *engine.Ctx, p *engine.Prog) {
 		for _, s := range f.CallsTo(c28SDK + ".NewContext") {
 			cnt++
 			n++
-			c.Check("query-view", name+" context over the immutable versioned view", s.Pos(), engine.ObjOf(info, s.Call.Args[1]) == msObj && f.Graph().Dominates(w, s),
+			viaWrap := sfAllLeafs(sfLeafs(sfRoot(f), s.Call.Args[1], s, 3, func(cx *sfCtx, cl *ast.CallExpr) bool { return true }), func(l sfLeaf) bool {
+				return l.e != nil && ast.Unparen(l.e) == ast.Expr(w.Call) && l.idx == 0
+			})
+			_ = msObj
+			c.Check("query-view", name+" context over the immutable versioned view", s.Pos(), viaWrap && f.Graph().Dominates(w, s),
 				"NewContext must receive the MultiStore returned by MultiImmutableCacheWrapWithVersion")
 		}
 		n++
-		c.Check("query-view", name+" builds one query context", f.Pos(), cnt == 1, "")
+		c.Check("query-view", name+" builds a query context", f.Pos(), cnt >= 1, "")
 		n++
 		c.Check("query-view", name+" checks the view error", w.Pos(), sfErrHandled(f, w.Call, false), "")
 		rel := false
@@ -325,7 +358,7 @@ func c28QueryView(c *engine.Ctx, p *engine.Prog) {
 						if g.Block != w.Block && f.Graph().BlockDominates(g.Block, w.Block) {
 							continue // guard that already precedes the acquisition
 						}
-						if !c22IsErrNil(g.Cond) || g.OnTrue {
+						if !sfErrCmp(f.Info(), g.Cond) || g.OnTrue {
 							extra++
 						}
 					}
@@ -354,7 +387,7 @@ func c28QueryView(c *engine.Ctx, p *engine.Prog) {
 				gs := f.Graph().Gates(st)
 				good := len(gs) > 0
 				for _, g := range gs {
-					if c22IsErrNil(g.Cond) && len(engine.Atoms(g.Cond)) == 1 {
+					if sfErrCmp(f.Info(), g.Cond) && len(engine.Atoms(g.Cond)) == 1 {
 						_, _, op, _ := sfCmp(g.Cond)
 						if (op == token.EQL) != g.OnTrue {
 							good = false
@@ -459,50 +492,112 @@ func c28Rootmulti(c *engine.Ctx, p *engine.Prog) {
 	k := 0
 	snapF := p.Field(RM + ".multiStore.querySnapshot")
 	muF := p.Field(RM + ".multiStore.snapshotMu")
-	onField := func(f *engine.Fn, fld *types.Var, m string) []*engine.Site {
-		var out []*engine.Site
-		for _, s := range f.Calls() {
-			if ff, mm := sfMethodOnField(f.Info(), s.Call); ff == fld && fld != nil && mm == m {
-				out = append(out, s)
-			}
+	// underLock: every protected site is dominated by a Lock of the mutex field and cannot run after an Unlock
+	underLock := func(f *engine.Fn, lockM, unlockM string, protected []sfDS) bool {
+		locks := sfDeepFieldCalls(f, 3, muF, lockM)
+		unlocks := sfDeepFieldCalls(f, 3, muF, unlockM)
+		if len(locks) == 0 || len(unlocks) == 0 || len(protected) == 0 {
+			return false
 		}
-		return out
-	}
-	if f := c.MustFunc(MS + "immutableAtVersion"); f != nil {
-		info := f.Info()
-		g := f.Graph()
-		rl, ru, ld := onField(f, muF, "RLock"), onField(f, muF, "RUnlock"), onField(f, snapF, "Load")
-		acq := f.CallsTo(RM + ".(*refSnapshot).acquire")
-		ok := len(rl) == 1 && len(ru) == 1 && len(ld) == 1 && len(acq) == 1 &&
-			g.Dominates(rl[0], ld[0]) && g.Dominates(ld[0], acq[0]) && g.ReachableAfter(acq[0], ru[0]) && !g.ReachableAfter(ru[0], acq[0]) && !g.ReachableAfter(ru[0], ld[0]) && !ru[0].Deferred
-		k++
-		c.Check("snapshot-pin", MS+"immutableAtVersion Load+acquire under snapshotMu.RLock", f.Pos(), ok, "RLock must dominate Load and acquire; RUnlock only afterwards")
-		// acquire gated by rs != nil, and release bound to rs.release in the same branch
-		ok = len(acq) == 1 && sfHolds(f, acq[0], true, func(e ast.Expr) bool {
-			_, b, op, isC := sfCmp(e)
-			return isC && op == token.NEQ && isNil(b)
-		})
-		relObj := types.Object(nil)
-		engine.InspectBody(f, func(x ast.Node) {
-			as, isAs := x.(*ast.AssignStmt)
-			if !isAs || len(as.Lhs) != 1 || len(as.Rhs) != 1 {
-				return
-			}
-			if se, isSel := ast.Unparen(as.Rhs[0]).(*ast.SelectorExpr); isSel && se.Sel.Name == "release" {
-				if fn, isFn := info.Uses[se.Sel].(*types.Func); isFn && engine.FuncName(fn) == RM+".(*refSnapshot).release" {
-					relObj = engine.ObjOf(info, as.Lhs[0])
+		for _, pt := range protected {
+			held := false
+			for _, l := range locks {
+				if sfDomDS(l, pt) {
+					held = true
 				}
 			}
+			if !held {
+				return false
+			}
+			for _, u := range unlocks {
+				if u.site.Deferred {
+					continue // runs when the function that locked returns
+				}
+				if sfReachAfterDS(u, pt) {
+					return false
+				}
+			}
+		}
+		return true
+	}
+	notNil := func(facts []sfFact, what func(*sfCtx, ast.Expr) bool) bool {
+		return sfKnown(facts, true, func(cx *sfCtx, e ast.Expr) bool {
+			a, b, op, isC := sfCmp(e)
+			return isC && op == token.NEQ && isNil(b) && (what == nil || what(cx, a))
+		}) || sfKnown(facts, false, func(cx *sfCtx, e ast.Expr) bool {
+			a, b, op, isC := sfCmp(e)
+			return isC && op == token.EQL && isNil(b) && (what == nil || what(cx, a))
 		})
+	}
+	if f := c.MustFunc(MS + "immutableAtVersion"); f != nil {
+		_ = f.Info()
+		ld := sfDeepFieldCalls(f, 3, snapF, "Load")
+		acq := sfDeepCallsTo(f, 3, RM+".(*refSnapshot).acquire")
+		ok := len(ld) >= 1 && len(acq) >= 1 && underLock(f, "RLock", "RUnlock", append(append([]sfDS{}, ld...), acq...))
+		for _, a := range acq {
+			okA := false
+			for _, l := range ld {
+				if sfDomDS(l, a) {
+					okA = true
+				}
+			}
+			ok = ok && okA
+		}
 		k++
-		c.Check("snapshot-pin", MS+"immutableAtVersion hands out the matching release", f.Pos(), ok && relObj != nil, "the acquired reference's release method must be the returned release func")
+		c.Check("snapshot-pin", MS+"immutableAtVersion Load+acquire under snapshotMu.RLock", f.Pos(), ok, "RLock must dominate Load and acquire; RUnlock only afterwards")
+		// acquire only on a non-nil snapshot, and the matching release is what is handed out
+		ok = len(acq) >= 1
+		for _, a := range acq {
+			ok = ok && notNil(a.facts(), nil)
+		}
+		// a "release value": originates from the method value <refSnapshot>.release (or a no-op literal on the fallback path)
+		isReleaseValue := func(cx *sfCtx, e ast.Expr, at *engine.Site) bool {
+			real := 0
+			ok := sfAllLeafs(sfLeafs(cx, e, at, 5, nil), func(l sfLeaf) bool {
+				if l.e == nil {
+					return false
+				}
+				if _, isLit := ast.Unparen(l.e).(*ast.FuncLit); isLit {
+					return true
+				}
+				se, isSel := ast.Unparen(l.e).(*ast.SelectorExpr)
+				if !isSel {
+					return false
+				}
+				fn, isFn := l.ctx.fn.Info().Uses[se.Sel].(*types.Func)
+				if isFn && engine.FuncName(fn) == RM+".(*refSnapshot).release" {
+					real++
+					return true
+				}
+				return false
+			})
+			return ok && real >= 1
+		}
+		handsOut := false
+		for _, r := range sfReturns(f) {
+			if len(r.Results) == 3 && !isNil(r.Results[1]) && isReleaseValue(sfRoot(f), r.Results[1], f.SiteOf(r)) {
+				handsOut = true
+			}
+		}
+		k++
+		c.Check("snapshot-pin", MS+"immutableAtVersion hands out the matching release", f.Pos(), ok && handsOut, "the acquired reference's release method must be the returned release func")
 		// error path of LoadVersion releases
-		lv := f.CallsTo(MS + "LoadVersion")
+		lv := sfDeepCallsTo(f, 2, MS+"LoadVersion")
 		ok = false
-		if len(lv) == 1 && relObj != nil {
+		if len(lv) == 1 {
 			for _, s := range f.Calls() {
-				if engine.ObjOf(info, s.Call.Fun) == relObj && !s.Deferred && g.Dominates(lv[0], s) &&
-					sfHolds(f, s, true, func(e ast.Expr) bool { _, b, op, isC := sfCmp(e); return isC && op == token.NEQ && isNil(b) }) {
+				if s.Deferred || !sfDomDS(lv[0], sfDS{sfRoot(f), s}) || !isReleaseValue(sfRoot(f), s.Call.Fun, s) {
+					continue
+				}
+				facts := sfFactsAt(sfRoot(f), s)
+				failed := sfKnown(facts, true, func(cx *sfCtx, e ast.Expr) bool {
+					_, _, op, isC := sfCmp(e)
+					return isC && op == token.NEQ && sfErrCmp(cx.fn.Info(), e)
+				}) || sfKnown(facts, false, func(cx *sfCtx, e ast.Expr) bool {
+					_, _, op, isC := sfCmp(e)
+					return isC && op == token.EQL && sfErrCmp(cx.fn.Info(), e)
+				})
+				if failed {
 					ok = true
 				}
 			}
@@ -517,11 +612,14 @@ func c28Rootmulti(c *engine.Ctx, p *engine.Prog) {
 				return true
 			}
 			if id, isId := kv.Key.(*ast.Ident); isId && id.Name == "db" {
-				ok = sfDerives(f, kv.Value, func(e ast.Expr) bool {
-					_, a := sfIsCallTo(info, e, "tm2/pkg/db.NewSnapshotDB")
-					_, b := sfIsCallTo(info, e, "tm2/pkg/db.NewImmutableDB")
+				isView := func(cx *sfCtx, e ast.Expr) bool {
+					_, a := sfIsCallTo(cx.fn.Info(), e, "tm2/pkg/db.NewSnapshotDB")
+					_, b := sfIsCallTo(cx.fn.Info(), e, "tm2/pkg/db.NewImmutableDB")
 					return a || b
-				}, 2)
+				}
+				ok = sfAllLeafs(sfLeafs(sfRoot(f), kv.Value, f.SiteOf(kv), 5, func(cx *sfCtx, cl *ast.CallExpr) bool { return isView(cx, cl) }), func(l sfLeaf) bool {
+					return l.e != nil && isView(l.ctx, l.e)
+				})
 			}
 			return true
 		})
@@ -533,24 +631,35 @@ func c28Rootmulti(c *engine.Ctx, p *engine.Prog) {
 		ia := f.CallsTo(MS + "immutableAtVersion")
 		ok := false
 		if len(ia) == 1 {
-			if as, isAs := ia[0].Top.(*ast.AssignStmt); isAs && len(as.Lhs) == 3 {
-				rel := engine.ObjOf(info, as.Lhs[1])
-				for _, s := range f.Calls() {
-					if s.Deferred && engine.ObjOf(info, s.Call.Fun) == rel {
-						ok = true
-					}
+			for _, s := range f.Calls() {
+				if !s.Deferred {
+					continue
+				}
+				// the deferred callee is result #1 of immutableAtVersion
+				if sfAllLeafs(sfLeafs(sfRoot(f), s.Call.Fun, s, 3, func(cx *sfCtx, cl *ast.CallExpr) bool { return true }), func(l sfLeaf) bool {
+					return l.e != nil && ast.Unparen(l.e) == ast.Expr(ia[0].Call) && l.idx == 1
+				}) {
+					ok = true
 				}
 			}
 		}
+		_ = info
 		k++
 		c.Check("snapshot-pin", MS+"QueryImmutable defers release", f.Pos(), ok, "")
 	}
 	if f := c.MustFunc(MS + "refreshQuerySnapshot"); f != nil {
-		g := f.Graph()
-		lk, ul, sw := onField(f, muF, "Lock"), onField(f, muF, "Unlock"), onField(f, snapF, "Swap")
-		rel := f.CallsTo(RM + ".(*refSnapshot).release")
-		ok := len(lk) == 1 && len(ul) == 1 && len(sw) == 1 && len(rel) == 1 && g.Dominates(lk[0], sw[0]) && g.Dominates(sw[0], rel[0]) &&
-			g.ReachableAfter(rel[0], ul[0]) && !g.ReachableAfter(ul[0], rel[0]) && !g.ReachableAfter(ul[0], sw[0])
+		sw := sfDeepFieldCalls(f, 3, snapF, "Swap")
+		rel := sfDeepCallsTo(f, 3, RM+".(*refSnapshot).release")
+		ok := len(sw) >= 1 && len(rel) >= 1 && underLock(f, "Lock", "Unlock", append(append([]sfDS{}, sw...), rel...))
+		for _, r := range rel {
+			after := false
+			for _, w := range sw {
+				if sfDomDS(w, r) {
+					after = true
+				}
+			}
+			ok = ok && after
+		}
 		k++
 		c.Check("snapshot-pin", MS+"refreshQuerySnapshot Swap+release under snapshotMu.Lock", f.Pos(), ok, "")
 	}
@@ -632,9 +741,17 @@ func c28Keeper(c *engine.Ctx, p *engine.Prog) {
 		if !strings.HasPrefix(short, "Query") && short != "withQueryEvalMachine" && short != "exportObject" {
 			continue
 		}
-		fresh := len(f.CallsToDeep(K + "newGnoTransactionStore"))
-		viaHelper := len(f.CallsToDeep(K+"withQueryEvalMachine", K+"exportObject", K+"QueryEval", K+"QueryEvalString"))
-		tx := len(f.CallsToDeep(K+"getGnoTransactionStore", K+"CommitGnoTransactionStore", K+"MakeGnoTransactionStore"))
+		// through private helpers and closures, any depth up to 3
+		count := func(pats ...string) int {
+			k := 0
+			for _, body := range append([]*engine.Fn{f}, f.AllLits()...) {
+				k += len(sfDeepCallsTo(body, 3, pats...))
+			}
+			return k
+		}
+		fresh := count(K + "newGnoTransactionStore")
+		viaHelper := 0
+		tx := count(K+"getGnoTransactionStore", K+"CommitGnoTransactionStore", K+"MakeGnoTransactionStore")
 		wr := 0
 		for _, s := range f.CallsToDeep(".Write") {
 			if strings.Contains(s.CalleeName(), "TransactionStore") || strings.Contains(s.CalleeName(), "gnolang") {
